@@ -121,8 +121,11 @@ def handler : Handler := fun op inp out =>
       | none => (model, fail "no-cover-returned")
     | none => bad
   | "covers" =>
-    match run (do let s ← P.rawSym; let k ← P.nat; let cnt ← P.nat; let gd ← P.groupData; pure (s, k, cnt, gd)) inp with
-    | some (s, k, cnt, gd) =>
+    match run (do
+        let s ← P.rawSym; let k ← P.nat; let cnt ← P.nat
+        let known ← (if cnt == 2 then P.nats else pure [])
+        let gd ← P.groupData; pure (s, k, cnt, known, gd)) inp with
+    | some (s, k, cnt, known, gd) =>
       let g := specG s
       let model := match s.toSym with
         | .ok y =>
@@ -140,6 +143,14 @@ def handler : Handler := fun op inp out =>
           [ ("pairwise-non-isomorphic-as-covers", nonIsomorphicOver g cgs) ] ++
           (if cnt == 1 then
             [("one-cover-per-conjugacy-class-of-subgroups-of-index-at-most-k", countsAgree g k cgs)]
+           else if cnt == 2 then
+            -- independently known numbers of classes by index (tools/c05_known_counts.py); the
+            -- Spec's own oracle confirms them as far as it reaches (5 sheets)
+            [("one-cover-per-conjugacy-class-of-subgroups-of-index-at-most-k(oracle-up-to-5)",
+                countsAgree g (min k 5) cgs),
+             ("one-cover-per-conjugacy-class-of-subgroups-of-index-at-most-k(known-histogram)",
+                known.length == k && (List.range k).all fun j0 =>
+                  (cgs.filter fun c => sheets g c == some (j0 + 1)).length == known.getD j0 0)]
            else [])))
       | none => (model, fail "no-covers-returned")
     | none => bad
